@@ -325,12 +325,18 @@ class Client:
             count,
         )
 
-        def on_pdu(client: Client, pdu: bytes):
+        def on_pdu(client: Client, channel: l2cap.LeCreditBasedChannel, pdu: bytes):
+            # Like on the fixed bearer, even-numbered op codes are client->server: the
+            # peer may use this bearer for requests of its own
+            if pdu and not pdu[0] & 1:
+                if connection.gatt_server is not None:
+                    connection.gatt_server.on_gatt_pdu_bytes(channel, pdu)
+                return
             client.on_gatt_pdu(att.ATT_PDU.from_bytes(pdu))
 
         clients = [cls(channel) for channel in channels]
         for channel, client in zip(channels, clients):
-            channel.sink = functools.partial(on_pdu, client)
+            channel.sink = functools.partial(on_pdu, client, channel)
         return clients[0] if count == 1 else clients
 
     @property
